@@ -1481,7 +1481,12 @@ class Interp:
             base['old'] = st.ghost['$old']
         base.update(env)
         st.push_frame(base, {'module': '$spec', 'cls': None, 'qual': '<spec>', 'closure': closure})
+        n_alts, n_trail = len(st.alts), st.tpos
         try:
-            return self.eval(node, st)
+            v = self.eval(node, st)
         finally:
             st.pop_frame()
+        if len(st.alts) != n_alts or st.tpos != n_trail:
+            # a contract expression must denote one value: an evaluation that forks would silently drop alternatives
+            raise Unsupported('contract expression forks (not a single merged value): %s' % (expr if isinstance(expr, str) else ast.unparse(expr)))
+        return v
